@@ -56,37 +56,94 @@ mod verif_l2_records_srt {
         kani::cover!(true, "reach_end");
     }
 
-    //@ob id=L2.record.df.28 flags=noassert mem=high props=C11,C19,C01 tier=quick kind=harness fns=downlink/dfs.rs:DF::from_message,downlink/mode_s.rs:Mds::update draw=frame28
-    //@region DF::from_message for all 112-bit frames (agreeing with their DF): always Ok; DF16 short record, DF17 extended record, DF20/21 Comm-B record (address = get_icao), every other format an empty short record (no address: such frames change nothing on the default path)
+    // DF::from_message on 112-bit frames, cut along its own structure (the un-cut obligation needed
+    // ~400 s and 10 GB): the dispatcher with the three record builders replaced by recorders, and
+    // each builder on its own (Ext: L2.record.ext.*; Srt for DF16 and Mds below).
+    static mut B_CALLS: (u32, u32, u32) = (0, 0, 0);
+    static mut B_MSG: *const u32 = core::ptr::null();
+    fn srt_rec(m: &[u32]) -> Result<Srt, &str> {
+        unsafe {
+            B_CALLS.0 += 1;
+            B_MSG = m.as_ptr();
+        }
+        Ok(Srt::new())
+    }
+    fn ext_rec(m: &[u32]) -> Result<Ext, &str> {
+        unsafe {
+            B_CALLS.1 += 1;
+            B_MSG = m.as_ptr();
+        }
+        Ok(Ext::new())
+    }
+    fn mds_rec(m: &[u32]) -> Result<Mds, &str> {
+        unsafe {
+            B_CALLS.2 += 1;
+            B_MSG = m.as_ptr();
+        }
+        Ok(Mds::new())
+    }
+
+    //@ob id=L2.record.df.dispatch flags=noassert props=C11,C19,C01 tier=quick kind=harness fns=downlink/dfs.rs:DF::from_message draw=frame28
+    //@region DF::from_message for all frames of both lengths' DF values (28-digit vector, any DF): always Ok; DF0..16 -> short record built from this frame, DF17 -> extended record, DF20/21 -> Comm-B record, every other format an EMPTY short record (no builder runs: such frames change nothing but the clock on the default path)
+    #[kani::proof]
+    #[kani::unwind(90)]
+    #[kani::stub(<crate::decoder::downlink::short::Srt as crate::decoder::downlink::dfs::Downlink>::from_message, srt_rec)]
+    #[kani::stub(<crate::decoder::downlink::extended::ext::Ext as crate::decoder::downlink::dfs::Downlink>::from_message, ext_rec)]
+    #[kani::stub(<crate::decoder::downlink::mode_s::Mds as crate::decoder::downlink::dfs::Downlink>::from_message, mds_rec)]
+    fn l2_record_df_dispatch() {
+        let m = any_frame28();
+        let df = decoder::get_downlink_format(&m).unwrap();
+        let r = DF::from_message(&m);
+        unsafe {
+            match r {
+                Ok(DF::SRT(r)) => {
+                    assert!(df != 17 && df != 20 && df != 21, "DF17/20/21 are not short records");
+                    if df <= 16 {
+                        assert!(B_CALLS == (1, 0, 0) && B_MSG == m.as_ptr(), "DF0..16: short record built from this frame");
+                    } else {
+                        assert!(B_CALLS == (0, 0, 0), "unsupported format: no record builder runs");
+                        assert!(r.icao.is_none() && r.df.is_none() && r.altitude.is_none() && r.squawk.is_none() && r.capability.is_none(), "unsupported format: empty record");
+                    }
+                }
+                Ok(DF::EXT(_)) => assert!(df == 17 && B_CALLS == (0, 1, 0) && B_MSG == m.as_ptr(), "extended record only for DF17, built from this frame"),
+                Ok(DF::MDS(_)) => assert!((df == 20 || df == 21) && B_CALLS == (0, 0, 1) && B_MSG == m.as_ptr(), "Comm-B record only for DF20/21, built from this frame"),
+                Err(_) => assert!(false, "every frame yields a record"),
+            }
+        }
+        kani::cover!(df == 17, "DF17");
+        kani::cover!(df == 18, "DF18");
+        kani::cover!(true, "reach_end");
+    }
+
+    //@ob id=L2.record.srt.28 flags=noassert props=C03,C11,C19,C01 tier=quick kind=harness fns=downlink/short.rs:Srt::update draw=frame28
+    //@region Srt::from_message for all 112-bit frames with DF>=16 (DF16 takes this builder): df and address recorded, no altitude/squawk/CA
+    #[kani::proof]
+    #[kani::unwind(90)]
+    fn l2_record_srt_28() {
+        let m = any_frame28();
+        kani::assume(crate::verif_spec::agree(&m));
+        let r = Srt::from_message(&m);
+        assert!(r.is_ok(), "every frame yields a record");
+        check_srt(&r.unwrap(), &m);
+        kani::cover!(true, "reach_end");
+    }
+
+    //@ob id=L2.record.mds flags=noassert mem=high props=C11,C19,C01,C10 tier=quick kind=harness fns=downlink/mode_s.rs:Mds::update draw=frame28
+    //@region Mds::from_message for all 112-bit frames with DF>=16 (real BDS recognisers): always Ok, no panic/overflow, df and address = get_icao recorded (on the default path a Comm-B record contributes the address only)
     #[kani::proof]
     #[kani::unwind(90)]
     #[kani::stub(crate::decoder::adsb::ais::ais, crate::decoder::plane::verif_row::ais_rec)]
-    #[kani::stub(crate::decoder::ehs::track_and_groundspeed, crate::decoder::plane::verif_row::tgs_rec)]
-    fn l2_record_df_28() {
+    fn l2_record_mds() {
         let m = any_frame28();
+        kani::assume(crate::verif_spec::agree(&m));
         let df = decoder::get_downlink_format(&m).unwrap();
-        kani::assume(df >= 16);
-        match DF::from_message(&m) {
-            Ok(DF::SRT(r)) => {
-                assert!(df != 17 && df != 20 && df != 21, "DF17/20/21 are not short records");
-                if df == 16 {
-                    check_srt(&r, &m);
-                } else {
-                    assert!(r.icao.is_none() && r.df.is_none() && r.altitude.is_none() && r.squawk.is_none() && r.capability.is_none(), "unsupported format: empty record");
-                }
-            }
-            Ok(DF::EXT(r)) => {
-                assert!(df == 17, "extended record only for DF17");
-                assert!(r.icao == decoder::get_icao(&m, df), "record address");
-            }
-            Ok(DF::MDS(r)) => {
-                assert!(df == 20 || df == 21, "Comm-B record only for DF20/21");
-                assert!(r.icao == decoder::get_icao(&m, df), "record address");
+        match Mds::from_message(&m) {
+            Ok(r) => {
+                assert!(r.df == Some(df), "record df = frame DF");
+                assert!(r.icao == decoder::get_icao(&m, df), "record address = get_icao(frame)");
             }
             Err(_) => assert!(false, "every frame yields a record"),
         }
-        kani::cover!(df == 17, "DF17");
-        kani::cover!(df == 20, "DF20");
         kani::cover!(true, "reach_end");
     }
 }
